@@ -163,6 +163,17 @@ theorem C12_cmdline_setproctitle (w : World) (t : Bytes) (a e : Nat) (hd : w.dir
       · rw [if_neg h1] at hc; exact hc
     exact (C12_cmdline_padded_title w t hd ht0).2 hc'
 
+/-- **C12_cmdline_strip_one_needed.** Why "exactly one trailing separator is removed" is a fact: removing ALL
+    of them (`data.rstrip(sep)`, tempting in view of the padded titles above) loses trailing empty arguments,
+    which the property promises to preserve — `a NUL NUL` is the argument vector `["a", ""]`. -/
+theorem C12_cmdline_strip_one_needed :
+    let w : World :=
+      { dirExists := true, zombie := false, comm := [], cmdline := .data (renderArgv [[97], []]),
+        environ := .data [], exe := .err .enoent, cwd := .err .enoent, fs := fun _ => .absent }
+    cmdline { good with stripOne := false } w = .ok [[97]]
+    ∧ Spec.cmdline w = some (.ok [[97], []])
+    ∧ cmdline good w = .ok [[97], []] := by decide
+
 /-- **C12_cmdline_unterminated.** A file whose last byte is not NUL — a title written without one, or an
     argument vector cut by a kernel that serves at most one page — is read as a space-separated title: the
     NULs it contains stay INSIDE the returned strings (joining the result with spaces gives the file back,
